@@ -91,9 +91,10 @@ PROPS['C16'] = {
 }
 
 PROPS['C36'] = {
-    'rules': [R(fr.rule_FR2), R(fr.rule_CR2), R(fr.rule_CR3), R(fr.rule_CR4), R(fr.rule_FR3)],
-    'floors': {'FR2': 5, 'CR2': 1, 'CR3': 3, 'CR4': 2, 'FR3': 5},
-    'explanation': 'Decides necessary conditions only: a partial frame is never read or consumed (FR2), a waiting receive is completed '
+    'rules': [R(fr.rule_FR2), R(fr.rule_CR2), R(fr.rule_CR3), R(fr.rule_CR4), R(fr.rule_FR3), R(pc.rule_PC5)],
+    'floors': {'FR2': 5, 'CR2': 1, 'CR3': 3, 'CR4': 2, 'FR3': 5, 'PC5': 12},
+    'explanation': 'Decides necessary conditions only: the message primitives are unconditional -- a missing connection surfaces as an error instead of a '
+                   'skipped send or a None "received" (PC5); a partial frame is never read or consumed (FR2), a waiting receive is completed '
                    'only in data_received after the completeness guard (CR2), output recombines only after awaiting one share per '
                    'requested predecessor with no handler/timeout substituting a missing one (CR3), a lost connection is re-raised '
                    '(CR4). Crash schedules themselves are not modelled.',
@@ -394,18 +395,18 @@ PROPS['C28'] = {
     'level': 'Static convention analysis of mpyc.secgroups -- exactly the recombination trick the single-party suite cannot exercise.',
 }
 PROPS['C37'] = {
-    'rules': [R(sg.rule_TC1), R(sg.rule_SG1), R(sg.rule_SG2), R(pc.rule_PC1), R(pa.rule_SS1), R(pa.rule_NL1), R(ss.rule_SS3), R(ss.rule_SS7), R(ss.rule_PR1), R(fx.rule_FX1), R(fx.rule_FX3), R(op.rule_OP6), R(op.rule_OP7), R(sg.rule_AW1), R(sn.rule_SN1), R(sn.rule_SN2), R(sn.rule_SN3)],
-    'floors': {'OP7': 12, 'AW1': 18, 'TC1': 10, 'SG1': 10, 'SG2': 1, 'PC1': 40, 'SS1': 60, 'NL1': 25, 'SS3': 9, 'SS7': 8, 'PR1': 12, 'FX1': 60, 'FX3': 15, 'OP6': 14, 'SN1': 4, 'SN2': 2, 'SN3': 3},
+    'rules': [R(sg.rule_TC1), R(sg.rule_SG1), R(sg.rule_SG2), R(pc.rule_PC1), R(pa.rule_SS1), R(pa.rule_NL1), R(ss.rule_SS3), R(ss.rule_SS7), R(ss.rule_PR1), R(fx.rule_FX1), R(fx.rule_FX3), R(op.rule_OP6), R(op.rule_OP7), R(sg.rule_AW1), R(sn.rule_IP1), R(sn.rule_SN1), R(sn.rule_SN2), R(sn.rule_SN3)],
+    'floors': {'OP7': 12, 'AW1': 18, 'IP1': 4, 'TC1': 10, 'SG1': 10, 'SG2': 1, 'PC1': 40, 'SS1': 60, 'NL1': 25, 'SS3': 9, 'SS7': 8, 'PR1': 12, 'FX1': 60, 'FX3': 15, 'OP6': 14, 'SN1': 4, 'SN2': 2, 'SN3': 3},
     'explanation': 'Sibling and plumbing clauses for code the suite cannot even import (no numpy): array coroutines agree with their scalar siblings on '
                    'mask bounds (as linear forms), opening thresholds, option/field-size case splits, PRSS calls and head-room (SG1); a type that is an '
                    'array type is never tested against a scalar secure class (TC1); integral= is passed to polymorphic constructors only under a '
                    'fixed-point guard (SG2); a NumPy ufunc applied to (plain, secure) operands is delegated in reflected form -- mirrored comparison or '
-                   '__r<op>__ method, exchanged operands only for symmetric operators (OP6); a scalar operator method establishes what its operand is before handing it to a runtime protocol, so that scalar-with-array broadcasts are answered by the array\'s own method (OP7); field-valued results of the local random sources, which are Futures without PRSS, are awaited under options.no_prss before use (AW1); np_sort applies the comparator schedule of _sort, exchanges pairs in '
+                   '__r<op>__ method, exchanged operands only for symmetric operators (OP6); a scalar operator method establishes what its operand is before handing it to a runtime protocol, so that scalar-with-array broadcasts are answered by the array\'s own method (OP7); field-valued results of the local random sources, which are Futures without PRSS, are awaited under options.no_prss before use (AW1); no in-place operator is applied to a share gathered from a parameter -- it would change the caller\'s value (IP1); np_sort applies the comparator schedule of _sort, exchanges pairs in '
                    'ascending orientation and works on a copy (SN1-SN3); the np_* coroutines satisfy the pc, degree, linearity and flag rules (PC1, SS1, NL1, FX1, FX3); array '
                    'sharing, recombination and PRSS agree with the list versions (SS3, SS7, PR1).',
     'assumptions': ['numpy semantics of the array operations (broadcasting, matmul) are as documented'],
-    'level': 'Static sibling-agreement and typestate analysis of the np_* half of the runtime. Found six genuine defects (np_roll without pc, '
-             'integral= for integer arrays, np_trunc head-room, reflected ufunc operands, scalar-vs-array comparisons, np_lsb without PRSS), all repaired.',
+    'level': 'Static sibling-agreement and typestate analysis of the np_* half of the runtime. Found seven genuine defects (np_roll without pc, '
+             'integral= for integer arrays, np_trunc head-room, reflected ufunc operands, scalar-vs-array comparisons, np_lsb without PRSS, np_unit_vector in-place shift), all repaired.',
 }
 PROPS['C39'] = {
     'rules': [R(cf.rule_CF1), R(cf.rule_CF2)],
